@@ -25,6 +25,7 @@ CHECKS = {
  "C18": ("exhaustive grid of pre-upgrade stores (legacy types) x stored versions x names x migrate messages with raw-storage diff and post-upgrade recovery in the simulator", "3"),
  "C19": ("two cargo-feature builds explore the same graphs; token-factory messages decoded by a hand-written reader; state/transition digests compared across builds", "3"),
  "C17": ("per-state exhaustive enumeration of (start_after, limit, status) triples, cursor chasing with every page size, id lists and users on every state of the withdrawal and IBC searches, against a full-scan reference", "3"),
+ "C20": ("exhaustive per-type/per-field/per-value enumeration: syn-extracted schema of all 1328 messages, hand-written wire codec -> generated decode/encode -> byte comparison; pinned schema baseline; osmosis-std as independently generated reference; all 27 registered type URLs x Any round trips", "3"),
  "C16": ("explicit-state BFS from fresh instances under 6 configurations with every entry point under catch_unwind (overflow checks on) plus a hostile message/query/sudo/reply/migrate battery on every state of further searches", "3"),
 }
 NA = {}
@@ -42,7 +43,7 @@ def main():
             "thorough_cmd": "./check %s --tier thorough" % pid,
             "evidence_file": "/verif/evidence/%s.json" % pid,
             "replay_cmd_template": "./check %s --replay {path}" % pid,
-            "engine": "mwcheck",
+            "engine": "protocheck" if pid == "C20" else "mwcheck",
             "level_claimed": {"category": "model_checking",
                               "text": "bounded exhaustive exploration of the real contract code: %s; holds for every history/input within the stated bounds, nothing sampled" % tech,
                               "design_ref": "DESIGN.md §%s %s" % (ref, pid)},
@@ -55,7 +56,8 @@ def main():
         "setup_cmd": "./check --setup",
         "hooks": {"guard": "--cfg milkyway_contracts_verif", "enable": "no source hooks are needed: the harness links the repository crates by path and uses only their public API",
                   "baseline_off_cmd": "cd /repo && cargo test --workspace --no-fail-fast --offline", "source_commits": [], "add_only": True},
-        "engines": [{"name": "mwcheck", "path": "/verif/harness/mwcheck", "serves_properties": sorted(CHECKS.keys()),
+        "engines": [{"name": "protocheck", "path": "/verif/harness/protocheck", "serves_properties": ["C20"], "kind_free_text": "build.rs extracts the protobuf schema from the generated sources with syn and generates one decode/encode shim per message type; main enumerates every type x field x value through a hand-written wire codec"},
+                    {"name": "mwcheck", "path": "/verif/harness/mwcheck", "serves_properties": sorted(CHECKS.keys()),
                      "kind_free_text": "level-synchronous parallel BFS over the real contract entry points inside a deterministic chain simulator (mwsim), plus exhaustive grids"}],
         "checks": checks,
         "not_applicable": na,
